@@ -15,7 +15,8 @@ ASSUMPTIONS = ['fractional-delay accuracy of interpolated-coefficient stages (ir
 
 def obligations(tier):
     obls = [qspec_obl()]
-    obls += [e2e_obl(c, ('pass', 'sym'), tier) for c in e2e_cfgs(tier)]
+    # (an explicit stop-band above the output Nyquist: what folds back into the pass-band is the stop-band leak, so that part is checked here too)
+    obls += [e2e_obl(c, ('pass', 'stop', 'sym') if c.stopband > 0 else ('pass', 'sym'), tier) for c in e2e_cfgs(tier)]
     obls += [stage_obl(c, ('pass',), tier) for c in stage_cfgs(tier)]
     obls += [e2e_obl(c, ('sym', 'gain'), tier) for c in align_cfgs(tier)]
     obls += half_band_obls(tier, 'pass')
